@@ -7,6 +7,11 @@ ALL = ["C%02d" % i for i in range(1, 21)]
 
 # id -> (category, technique, level text, level note, design ref, engine)
 CHECKS = {
+ "C05": ("model_checking",
+         "bounded-exhaustive enumeration of HTTP requests (Accept-Encoding subsets/orders/case/weights x coordinate classes x extensions x server modes) against the real server binary through a raw socket client",
+         "The real `versatiles serve` binary is started in 7 modes (best, --fast, --flip-y, --swap-xy, --override-input-compression gzip alone / with --flip-y / with --swap-xy --fast) over 8 sources (versatiles x 3 stored compressions x {pbf,png}, mbtiles, pmtiles); per source: Accept-Encoding absent + all 32 subsets of {gzip,br,deflate,identity,zstd} + 10 reversed pairs, x 3 letter cases x 3 weight forms; 30 coordinate classes (stored, absent, x/y = 2^z, 2^32-1, 2^32, z 31/32/255/256, non-numeric, negative, spaces, encoded) x 4 extensions x 3 Accept-Encoding values; 9 degenerate paths; every request twice on keep-alive connections (43k requests). 200 iff the source holds the tile; body decoded by Content-Encoding equals the stored tile decoded; Content-Type is the media type; Content-Encoding absent or offered by the client; otherwise 404 (400 for non-numeric; either for z 32..255) as a complete response, never a dropped connection.",
+         "A y part like '1.5' or '1e2' is read as y with an extension and is judged only for 'complete response'. The binary is built in the repository's own dev profile (overflow checks on).",
+         "3/C05", "E-http"),
  "C17": ("model_checking",
          "exhaustive enumeration of the string alphabet (every Unicode scalar value) and bounded-exhaustive enumeration of values/documents, each through the real serialiser, the real parser and a standard JSON parser; TileJSON through the real writers/readers and the real server",
          "All 1,112,064 one-character strings, all 8421 strings of length <= 3 over 20 escape-class characters (also as object keys), 36 boundary numbers, all nested values of depth <= 2 / width <= 2 over 7 leaves (27k) plus a stride of depth 3: stringify -> parse gives the same value and serde_json reads the same value from the text. 6 TileJSON documents (escapes, lists, byte values, bounds, center, vector_layers with fields/description/zooms) x {versatiles, pmtiles, tar, directory} x 3 compressions: the metadata stored in the file (independently decoded) and the re-opened reader's TileJSON equal the given document, zoom range and bounds only narrowed. tiles.json and meta.json of 4 sources served by the real binary: valid JSON, carries the metadata, a tiles template for the id, zoom range and bounds of the stored coverage.",
